@@ -282,6 +282,17 @@ def install_capture():
     addr_t.send_msg = cap
 
 
+def make_spec(e):
+    """a real ControlSpec of the generated shape (ordered / inverted / empty range, any warp, step, default or None)"""
+    if len(e) < 3:
+        return ControlSpec(-1e9, 1e9, default=num(e[1][0], e[1][1]))
+    sh = e[2]
+    w = sh['warp'] if isinstance(sh['warp'], str) else num(sh['warp'][0], sh['warp'][1])
+    return ControlSpec(num(*sh['minval']), num(*sh['maxval']), w,
+                       None if sh['step'] is None else num(*sh['step']),
+                       None if sh['default'] is None else num(*sh['default']))
+
+
 def context_state():
     """what the NEXT operation would see: build context released?"""
     st = {'ctx_clear': _libsc3.main._current_synthdef is None}
@@ -310,7 +321,7 @@ def run_case(idx, case):
     func = scope[top]
     md = None
     if case.get('specs') is not None:
-        md = {'specs': {k: ControlSpec(-1e9, 1e9, default=num(v[0], v[1])) for k, v in case['specs']}}
+        md = {'specs': {e[0]: make_spec(e) for e in case['specs']}}
     variants = None
     if case.get('variants') is not None:
         variants = {}
